@@ -99,6 +99,7 @@ def check (cfg : Cfg) (g : Ghost) : Ev → Res → Bool
       else notResolved res
     | none => notResolved res
   | .rem _ tid, res => if tid == "" then res == .errParam else res == .ok
+  | .remDead _ tid, res => if tid == "" then res == .errParam else res == .ok
   | .open_ n r, res => if g.bridges n r.tunnelID then res == .exists_ else res == .ok
   | .endB n tid, res => if g.bridges n tid then res == .ok else res == .skip
   | .adv _, res => res == .skip
@@ -149,6 +150,7 @@ def gstep (cfg : Cfg) (g : Ghost) : Ev → Ghost
   | .reg n r => if r.tunnelID == "" then g else setT g r.tunnelID (some ⟨r, tableTTL cfg n, g.wall, g.rclk⟩)
   | .look _ _ => g
   | .rem _ tid => if tid == "" then g else setT g tid none
+  | .remDead _ tid => if tid == "" then g else setT g tid none   -- the tunnel ended: the id is gone, whatever the caller's context
   | .open_ n r =>
     if g.bridges n r.tunnelID then g
     else
@@ -209,6 +211,7 @@ def wfEv (b : Backend) : Ev → Bool
   | .open_ n r => wfNode b n && wfRec b r
   | .look n _ => wfNode b n
   | .rem n _ => wfNode b n
+  | .remDead n _ => wfNode b n
   | .endB n _ => wfNode b n
   | .regAddr n _ _ => wfNode b n
   | .getAddr n _ => wfNode b n
